@@ -489,7 +489,7 @@ class C06(PropertyCheck):
         "end_to_end_exp_partial", "end_to_end_pulses_partial")] + [
         # the composition lemmas behind end_to_end_pulses_partial (Lemmas/Compose*.lean)
         "QipVerif.Compose.sliceProd_eq_windows", "QipVerif.Compose.channels_sliceProd",
-        "QipVerif.SpinChain.pulses_product"]
+        "QipVerif.SpinChain.pulses_product", "QipVerif.SpinChain.compile_chanQubits"]
     technique = ("Lean 4: the compiler's formulas and tables regenerated from the source with ast into functions over an abstract "
                  "arithmetic, instantiated with R for the theorems and with Q for the compiled model driver; calibration "
                  "identities over C for every angle and strength, with the ideal propagator of a constant segment defined as "
@@ -526,7 +526,8 @@ class C06(PropertyCheck):
                   "is the sum of the generators of the windows containing it, window end points are merged grid points). Partial: "
                   "that composition is about exact rational arithmetic (durations, coefficients and start times as rationals, no "
                   "float rounding) and takes the facts about the schedule as hypotheses: every idle gap on a channel is 0 or above "
-                  "time_tol (C12 ValidG), pulses whose control Hamiltonians share a qubit are disjoint in time and the "
+                  "time_tol (C12 ValidG), instructions whose gates share a qubit are disjoint in time (GateDisjoint; compile_chanQubits "
+                  "proves that the control Hamiltonian of a compiled instruction acts on qubits of its gate) and the "
                   "dependencies are respected (C11), distinct merged grid points are more than tol apart (C14 SepAll); the floats "
                   "of the implementation are compared numerically (1e-9) with the exact unitary on every run; hypotheses: no gate on more than two qubits unless transpile pre-decomposes them "
                   "(C13-1, applied), positive instruction durations unless compile drops zero-duration instructions (C06-2, applied: "
@@ -550,7 +551,7 @@ class C06(PropertyCheck):
         "(Concat.schedule/groupPulses/compileS with the regenerated Gen/ConcatSrc.lean) and C14 (Grid.fullCoeffsV/slices/"
         "runAnalytically) as the meaning of 'what compile and run_analytically compute' in end_to_end_pulses_partial (tied to the "
         "code by the correspondences of C12/C14, re-run by their checks; Gen/ConcatSrc.lean is regenerated by this check too)",
-        "end_to_end_pulses_partial: exact rational arithmetic; hypotheses ValidG (C12), PulseDisjoint/DepRespected (C11), "
+        "end_to_end_pulses_partial: exact rational arithmetic; hypotheses ValidG (C12), GateDisjoint/DepRespected (C11), "
         "SepAll (C14) about the schedule are not derived from the scheduler model",
         "py/props/c06.py harness; numpy/scipy expm inside run_analytically (runtime numerics, 1e-9 band)",
     ]
@@ -559,8 +560,8 @@ class C06(PropertyCheck):
                    "end_to_end_partial: hypothesis RouteStageDen (routing stage preserves denG, as in C13); PHASEGATE with a fixed "
                    "angle is a multiple of pi/4 (C03's phOK); DepRespected is C11's dep_respected for the start times (not re-proved here)",
                    "end_to_end_pulses_partial: durations, coefficients and start times are rational numbers and the arithmetic is exact "
-                   "(no float rounding); idle gaps on a channel are 0 or above time_tol (C12 ValidG); pulses whose control Hamiltonians "
-                   "act on a common qubit do not overlap in time (C11 timetable_valid); distinct merged grid points are more than tol "
+                   "(no float rounding); idle gaps on a channel are 0 or above time_tol (C12 ValidG); instructions whose gates "
+                   "share a qubit do not overlap in time (C11 timetable_valid); distinct merged grid points are more than tol "
                    "apart (C14 SepAll); control channels without pulse (rows of zeros) are left out of the model's channel list",
                    "classes excluded from the oracle sweep exactly when the source has the defective shape: circuits with a gate on "
                    "more than two qubits (transpile without pre-decomposition), circuits with a rotation by exactly 0 (compile keeps "
